@@ -314,11 +314,15 @@ mut(
     "c16-revert-version-locktime",
     "C16",
     "bits/tx.py",
-    """                    version=version,
+    """                    scriptcode,
+                    txouts,
+                    version=version,
                     locktime=locktime,
                     sighash_flag=sighash_flag,
 """,
-    """                    version=version,
+    """                    scriptcode,
+                    txouts,
+                    version=version,
                     sighash_flag=sighash_flag,
 """,
     runs=320,
@@ -349,6 +353,36 @@ mut(
 )
 
 
+mut(
+    "c16-legacy-other-scripts-not-blanked",
+    "C16",
+    "bits/tx.py",
+    """            inputs.append(txin(txin_[:36], b"", sequence=sequence))
+""",
+    """            inputs.append(txin(txin_[:36], txin_[37 : 37 + txin_[36]] if txin_[36] < 253 else b"", sequence=sequence))
+""",
+    runs=640,
+)
+mut(
+    "c16-legacy-single-keeps-all-outputs",
+    "C16",
+    "bits/tx.py",
+    """        outputs = [txout(2**64 - 1, b"")] * txin_index + [txouts[txin_index]]
+""",
+    """        outputs = txouts
+""",
+    runs=960,
+)
+mut(
+    "c16-legacy-none-keeps-sequences",
+    "C16",
+    "bits/tx.py",
+    """            sequence = b"\\x00" * 4 if sighash_type in [0x02, 0x03] else txin_[-4:]
+""",
+    """            sequence = b"\\x00" * 4 if sighash_type == 0x03 else txin_[-4:]
+""",
+    runs=960,
+)
 mut(
     "c16-revert-version-char-check",
     "C16",
@@ -674,6 +708,8 @@ def seeded():
             if os.path.exists(meta) and os.path.exists(patch):
                 with open(meta) as f:
                     md = json.load(f)
+                if md.get("superseded"):
+                    continue  # the code it patched was rewritten by a later fix: commit; result on record in meta.json
                 exp = (md.get("check_result") or {}).get("verdict")
                 out.append({"id": "seeded/" + name, "prop": md["property"], "patch": patch, "runs": md.get("runs"), "not_decided": exp == "NOT-DECIDED"})
     return out
